@@ -7,7 +7,9 @@ import (
 	"fmt"
 	"io"
 	"os"
+	"path/filepath"
 	"strings"
+	"sync"
 	"testing"
 
 	"github.com/protobom/protobom/pkg/formats"
@@ -226,6 +228,27 @@ func commonSniffChecks(t fataler, data []byte, what string) formats.Format {
 	return res.format
 }
 
+var c06Tmp struct {
+	once sync.Once
+	dir  string
+}
+
+// c06TempDir is a per-process scratch directory below VERIF_TMP (the driver removes it).
+func c06TempDir() string {
+	c06Tmp.once.Do(func() {
+		base := os.Getenv("VERIF_TMP")
+		if base == "" {
+			base = os.TempDir()
+		}
+		d, err := os.MkdirTemp(base, "c06-")
+		if err != nil {
+			panic("HARNESS-SELFTEST " + err.Error())
+		}
+		c06Tmp.dir = d
+	})
+	return c06Tmp.dir
+}
+
 func c06PositiveProperty(t *rapid.T) {
 	hx.Eval()
 	f := rapid.SampledFrom([]formats.Format{formats.SPDX23JSON, formats.CDX13JSON, formats.CDX14JSON, formats.CDX15JSON}).Draw(t, "format")
@@ -277,6 +300,25 @@ func c06PositiveProperty(t *rapid.T) {
 		}
 		if want != nil && (len(d.NodeList.Nodes) != len(want.NodeList.Nodes) || len(d.NodeList.Edges) != len(want.NodeList.Edges)) {
 			t.Fatalf("ParseStream after detection did not see the whole document: %d nodes / %d edges, want %d / %d", len(d.NodeList.Nodes), len(d.NodeList.Edges), len(want.NodeList.Nodes), len(want.NodeList.Edges))
+		}
+		// the file entry points: detection and parsing from a path agree with the stream variants
+		if i == 0 {
+			path := filepath.Join(c06TempDir(), "doc.json")
+			if werr := os.WriteFile(path, enc, 0o600); werr != nil {
+				t.Fatalf("HARNESS-SELFTEST cannot write %s: %v", path, werr)
+			}
+			got, ferr := (&formats.Sniffer{}).SniffFile(path)
+			if ferr != nil || got != f {
+				t.Fatalf("SniffFile on a re-encoding of the writer's %s output returned %q, %v (SniffReader returns the format)", f, got, ferr)
+			}
+			fd, ferr := reader.New().ParseFile(path)
+			if ferr != nil {
+				t.Fatalf("ParseFile failed on a document ParseStream accepts: %v", ferr)
+			}
+			if hx.RefKey(fd, false) != hx.RefKey(d, false) && !strings.Contains(d.Metadata.GetId(), "/protobom-") {
+				t.Fatalf("ParseFile and ParseStream disagree on the same bytes (first difference near %q)", firstDiff(hx.RefKey(d, false), hx.RefKey(fd, false)))
+			}
+			hx.Class("file_entry_points")
 		}
 		if !bytes.Equal(enc, out) && (moved || reordered) {
 			if hx.NonTrivial(hx.Digest(string(enc))) {
@@ -379,4 +421,43 @@ func TestC06Accessors(t *testing.T) {
 		hx.NonTrivial(hx.Digest("fmt", f))
 	}
 	hx.Sample(func() any { return "accessor algebra of all format constants" })
+}
+
+// TestC06Files: the path-based entry points on paths that are no document: error returns, never a panic, and never
+// a format together with an error.
+func TestC06Files(t *testing.T) {
+	dir := c06TempDir()
+	empty := filepath.Join(dir, "empty.json")
+	_ = os.WriteFile(empty, nil, 0o600)
+	garbage := filepath.Join(dir, "garbage.bin")
+	_ = os.WriteFile(garbage, []byte{0xff, 0xfe, 0x00, '{', '"'}, 0o600)
+	near := filepath.Join(dir, "near.json")
+	_ = os.WriteFile(near, []byte(`{"bomFormat":"CycloneDX","specVersion":"9.9"}`), 0o600)
+	for _, p := range []string{filepath.Join(dir, "does-not-exist.json"), dir, empty, garbage, near, "", string([]byte{0})} {
+		hx.Eval()
+		hx.NonTrivial(hx.Digest("c06file", p))
+		func() {
+			defer func() {
+				if r := recover(); r != nil {
+					hx.RecordFailure("C06Files", fmt.Sprintf("path entry point panicked on %q: %v", p, r), map[string]any{"path": p})
+					t.Fatalf("path entry point panicked on %q: %v", p, r)
+				}
+			}()
+			f, err := (&formats.Sniffer{}).SniffFile(p)
+			if (err == nil) == (f == "") || err == nil {
+				hx.RecordFailure("C06Files", fmt.Sprintf("SniffFile(%q) = %q, %v", p, f, err), map[string]any{"path": p})
+				t.Fatalf("SniffFile(%q) returned format %q and error %v (a format xor an error; this path holds no SBOM)", p, f, err)
+			}
+			d, err := reader.New().ParseFile(p)
+			if err == nil || d != nil {
+				hx.RecordFailure("C06Files", fmt.Sprintf("ParseFile(%q) = %v, %v", p, d != nil, err), map[string]any{"path": p})
+				t.Fatalf("ParseFile(%q) returned document=%v error=%v (this path holds no SBOM)", p, d != nil, err)
+			}
+			d, err = reader.New().ParseFileWithOptions(p, &reader.Options{Format: formats.CDX15JSON})
+			if (err == nil) == (d == nil) {
+				hx.RecordFailure("C06Files", fmt.Sprintf("ParseFileWithOptions(%q) = %v, %v", p, d != nil, err), map[string]any{"path": p})
+				t.Fatalf("ParseFileWithOptions(%q) returned document=%v error=%v (a document xor an error)", p, d != nil, err)
+			}
+		}()
+	}
 }
